@@ -513,6 +513,17 @@ def e2e(ctx, objdir):
         present = sorted({int(n.rsplit("_f", 1)[1]) for n in names.values() if isinstance(n, str)})
         ks = rng.sample(present, min(len(present), rng.randrange(1, 3)))     # a pattern that matches nothing
                                                                              # does not count as a filter
+        # the first programs of every run are directed at -L together with -F/-N: a function that carries a filter
+        # and lies OUTSIDE the selected location (its scope must still be opened and closed: mcount_entry_filter_check
+        # steps in_count/out_count before it looks at the location)
+        in_a0 = [k for k in present if loc_of(k) == "A"]
+        forced_lmode = None
+        if pi < 3 and in_a0 and len(in_a0) < len(present):
+            forced_lmode = ("show", "hide", "show")[pi]
+            outk = [k for k in present if (k not in in_a0) == (forced_lmode == "show")]
+            callers = [k for k in outk if any(c.k == k and c.kids for c in F.walk(fo_main))] or outk
+            k0 = rng.choice(callers)
+            ks = [k0] + [k for k in ks if k != k0][:1]
         facts = rng.choice(["none", "all", "mixed"])
         for k in ks:
             inc = rng.random() < 0.6
@@ -535,8 +546,8 @@ def e2e(ctx, objdir):
         # location filter: show only locA.c / hide locA.c (-L locA.c[@hide]); main (locmain.c) is outside every named location
         in_a = [k for k in present if loc_of(k) == "A"]
         lmode = None
-        if in_a and rng.random() < 0.5:
-            lmode = rng.choice(["show", "hide"])
+        if in_a and (forced_lmode or rng.random() < 0.5):
+            lmode = forced_lmode or rng.choice(["show", "hide"])
             for k in in_a:
                 trig.setdefault(k, {})["loc"] = (lmode == "show")
             opts += ["-L", "locA.c" + ("@hide" if lmode == "hide" else "")]
